@@ -46,6 +46,7 @@ func init() {
 					p.Faults = append(p.Faults, Fault{Kind: "crash", On: "effect", N: 20 + g.pick(200)})
 				}
 			}
+			g.swarmExtras(p, true, false)
 			return p
 		},
 		Arm: func(s *Sys) { s.Mon = append(s.Mon, &c01{s: s}, &overlapProbe{s: s}) },
